@@ -15,49 +15,93 @@ import (
 // redeclarations across files and resolution are solver-decided), 0-1 import spec (plain / aliased /
 // dot / blank), importer nil, failing, or a stub returning a package object with a small scope.
 
+type vfFileDesc struct {
+	pkg      string
+	objNames []string
+	objKinds []int
+	unres    []string
+	imp      int // 0 none, 1 plain, 2 alias, 3 dot, 4 blank
+	alias    string
+}
+
 func VerifC18NewPackage() {
 	nfiles := 1 + vfChoice("nfiles", 2)
-	dfiles := map[string]*File{}
-	afiles := map[string]*ast.File{}
 	impMode := vfChoice("importer", 3) // 0 nil, 1 failing, 2 stub
+	hasUniverse := vfChoice("universe", 2) == 1
+	universeName := ""
+	if hasUniverse {
+		universeName = vfBytes("universeName", 1, "abx")
+	}
+	small := vfTier() == 0 && nfiles == 2 && hasUniverse // quick: keep the two-file + universe case small
+	var descs []vfFileDesc
 	for i := 0; i < nfiles; i++ {
 		tag := "f" + strconv.Itoa(i)
-		pkgName := vfBytes(tag+".pkg", 1, "pq")
+		d := vfFileDesc{pkg: vfBytes(tag+".pkg", 1, "pq")}
 		if i > 0 {
 			// files of one package: with differing package clauses the outcome depends on Go's map
 			// iteration order in both implementations alike, which a native replay cannot pin down
-			vfAssume(pkgName == dfiles["f0.go"].Name.Name)
+			vfAssume(d.pkg == descs[0].pkg)
 		}
-		df := &File{Name: &Ident{Name: pkgName}, Scope: NewScope(nil)}
-		af := &ast.File{Name: &ast.Ident{Name: pkgName}, Scope: ast.NewScope(nil)}
-		nobj := vfChoice(tag+".nobj", 2+vfTier())
+		nobj := 0
+		if !small {
+			if i == 0 {
+				nobj = vfChoice(tag+".nobj", 2+vfTier())
+			} else {
+				nobj = vfChoice(tag+".nobj", 2) // second file: at most one object (keeps the thorough tier inside its time budget)
+			}
+		}
 		for j := 0; j < nobj; j++ {
 			name := vfBytes(tag+".obj"+strconv.Itoa(j), 1, "ab")
 			if j == 1 {
-				// a scope cannot hold two objects of one name
-				_, dup := df.Scope.Objects[name]
-				vfAssume(!dup)
+				vfAssume(name != d.objNames[0]) // a scope cannot hold two objects of one name
 			}
-			kind := vfInt(tag+".kind"+strconv.Itoa(j), 1, 6)
-			df.Scope.Insert(&Object{Kind: ObjKind(kind), Name: name})
-			af.Scope.Insert(&ast.Object{Kind: ast.ObjKind(kind), Name: name})
+			d.objNames = append(d.objNames, name)
+			d.objKinds = append(d.objKinds, vfInt(tag+".kind"+strconv.Itoa(j), 1, 6))
 		}
 		nun := vfChoice(tag+".nun", 2+vfTier())
 		for j := 0; j < nun; j++ {
-			name := vfBytes(tag+".un"+strconv.Itoa(j), 1, "abx")
+			d.unres = append(d.unres, vfBytes(tag+".un"+strconv.Itoa(j), 1, "abx"))
+		}
+		if vfChoice(tag+".import", 2) == 1 {
+			d.imp = 1 + vfChoice(tag+".impname", 4)
+			if d.imp == 2 {
+				d.alias = vfBytes(tag+".alias", 1, "ax")
+			}
+		}
+		descs = append(descs, d)
+	}
+	libMember := vfBytes("libMember", 1, "ax")
+
+	// both implementations iterate over the files map: natively Go's randomised order is sampled repeatedly
+	for rep := 0; rep < vfNativeRepeats(); rep++ {
+		vfNewPackageOnce(descs, impMode, hasUniverse, universeName, libMember)
+	}
+}
+
+func vfNewPackageOnce(descs []vfFileDesc, impMode int, hasUniverse bool, universeName, libMember string) {
+	dfiles := map[string]*File{}
+	afiles := map[string]*ast.File{}
+	for i, d := range descs {
+		tag := "f" + strconv.Itoa(i)
+		df := &File{Name: &Ident{Name: d.pkg}, Scope: NewScope(nil)}
+		af := &ast.File{Name: &ast.Ident{Name: d.pkg}, Scope: ast.NewScope(nil)}
+		for j, name := range d.objNames {
+			df.Scope.Insert(&Object{Kind: ObjKind(d.objKinds[j]), Name: name})
+			af.Scope.Insert(&ast.Object{Kind: ast.ObjKind(d.objKinds[j]), Name: name})
+		}
+		for _, name := range d.unres {
 			df.Unresolved = append(df.Unresolved, &Ident{Name: name})
 			af.Unresolved = append(af.Unresolved, &ast.Ident{Name: name})
 		}
-		if vfChoice(tag+".import", 2) == 1 {
+		if d.imp != 0 {
 			ds := &ImportSpec{Path: &BasicLit{Kind: token.STRING, Value: "\"lib\""}}
 			as := &ast.ImportSpec{Path: &ast.BasicLit{Kind: token.STRING, Value: "\"lib\""}}
-			switch vfChoice(tag+".impname", 4) {
-			case 1:
-				n := vfBytes(tag+".alias", 1, "ax")
-				ds.Name, as.Name = &Ident{Name: n}, &ast.Ident{Name: n}
+			switch d.imp {
 			case 2:
-				ds.Name, as.Name = &Ident{Name: "."}, &ast.Ident{Name: "."}
+				ds.Name, as.Name = &Ident{Name: d.alias}, &ast.Ident{Name: d.alias}
 			case 3:
+				ds.Name, as.Name = &Ident{Name: "."}, &ast.Ident{Name: "."}
+			case 4:
 				ds.Name, as.Name = &Ident{Name: "_"}, &ast.Ident{Name: "_"}
 			}
 			df.Imports, af.Imports = []*ImportSpec{ds}, []*ast.ImportSpec{as}
@@ -65,7 +109,6 @@ func VerifC18NewPackage() {
 		dfiles[tag+".go"] = df
 		afiles[tag+".go"] = af
 	}
-	libMember := vfBytes("libMember", 1, "ax")
 	var dimp Importer
 	var aimp ast.Importer
 	switch impMode {
@@ -100,11 +143,10 @@ func VerifC18NewPackage() {
 	// universe scope: absent, or holding one predeclared name that unresolved identifiers may hit
 	var duni *Scope
 	var auni *ast.Scope
-	if (vfTier() > 0 || nfiles == 1) && vfChoice("universe", 2) == 1 {
-		un := vfBytes("universeName", 1, "abx")
+	if hasUniverse {
 		duni, auni = NewScope(nil), ast.NewScope(nil)
-		duni.Insert(&Object{Kind: Typ, Name: un})
-		auni.Insert(&ast.Object{Kind: ast.Typ, Name: un})
+		duni.Insert(&Object{Kind: Typ, Name: universeName})
+		auni.Insert(&ast.Object{Kind: ast.Typ, Name: universeName})
 	}
 	dp, derr := NewPackage(fset, dfiles, dimp, duni)
 	ap, aerr := ast.NewPackage(fset, afiles, aimp, auni)
